@@ -2,29 +2,29 @@
   Property C03 — A passing mesh comparison implies equality up to reordering (no false PASS).
   Only property theorems live here; helper lemmas are in FcProofs/Lemmas/MeshEqual.lean.
 
-  Model:  `Fc.meshEqualWith` / `Fc.meshEqual` / `Fc.permutedEqual`   (FcModel/MeshEqual.lean — `mesh_equal`,
+  Model:  `Fc.C03.meshEqualWith` / `Fc.C03.meshEqual` / `Fc.C03.permutedEqual`   (FcModel/MeshEqual.lean — `mesh_equal`,
           `_without_compatibles`, `_find_compatible`, sorted corner arrays, FuzzyEquality / ExactEquality)
-          `Fc.Spec.ladder`                                           (FcModel/Spec/C03.lean — the retry ladder
+          `Fc.C03.ladder`                                           (FcModel/Spec/C03.lean — the retry ladder
           of `MeshFieldsComparator.__call__` over abstract transformations)
-  Spec:   `Fc.Spec.meshEqualSpec`, `Fc.Partner`, `Fc.CellsMatch`, the single-site modifications
-          `Spec.setCoord`, `Spec.dropBlock`, …
-  Table:  `Fc.Gen.compatPairs` — regenerated from fieldcompare/mesh/_cell_type.py on every run; the
+  Spec:   `Fc.C03.meshEqualSpec`, `Fc.C03.Partner`, `Fc.C03.CellsMatch`, the single-site modifications
+          `Fc.C03.setCoord`, `Fc.C03.dropBlock`, …
+  Table:  `Fc.Gen.C16.compatPairs` — regenerated from fieldcompare/mesh/_cell_type.py on every run; the
           facts used about it (`compatPairs_symm`, `compatPairs_functional`) are re-proved by `decide`.
 
-  Hypothesis of all theorems: `Mesh.wfEq` (decidable; evaluated by the driver on every case) — every point
+  Hypothesis of all theorems: `wfEq` (decidable; evaluated by the driver on every case) — every point
   has `dim` coordinates, the type blocks have pairwise different types (a Python dict), each block is a
   rectangular array.
 -/
 import FcProofs.Lemmas.MeshEqual
 namespace Fc
-open Spec
+open Fc.Spec Fc.C03
 
 /-- **C03 (model = spec).**  For all well-formed meshes and all tolerances the modelled `mesh_equal` never
     raises and answers exactly the declarative statement `meshEqualSpec`: same shape of the point arrays and
     the documented formula on every coordinate pair, type sets equal up to compatible pairs in both
     directions, and for every type the partner block has the same number of cells with cell-wise equal
     corner sets. -/
-theorem C03_model_eq_spec (rel abs : Nat) (A B : Mesh) (hA : A.wfEq = true) (hB : B.wfEq = true) :
+theorem C03_model_eq_spec (rel abs : Nat) (A B : Mesh) (hA : (wfEq A) = true) (hB : (wfEq B) = true) :
     meshEqualWith rel abs A B = .ok (meshEqualSpec rel abs A B) :=
   meshEqualWith_eq_spec rel abs A B hA hB
 
@@ -36,10 +36,10 @@ theorem C03_model_eq_spec (rel abs : Nat) (A B : Mesh) (hA : A.wfEq = true) (hB 
       voxel~hexahedron — where each exists on its own side only) whose block has the same number of cells,
       cell `k` of A connecting the same points as cell `k` of B (rows are permutations of each other),
     * and conversely every cell type of B has such a partner in A (no one-sided type block). -/
-theorem C03_mesh_equal_sound (rel abs : Nat) (A B : Mesh) (hA : A.wfEq = true) (hB : B.wfEq = true)
+theorem C03_mesh_equal_sound (rel abs : Nat) (A B : Mesh) (hA : (wfEq A) = true) (hB : (wfEq B) = true)
     (h : meshEqualWith rel abs A B = .ok true) :
     (A.numPoints = B.numPoints ∧ A.dim = B.dim ∧
-      ∀ i j, i < A.numPoints → j < A.dim → docFormula f64 (A.coord i j) (B.coord i j) rel abs = true) ∧
+      ∀ i j, i < A.numPoints → j < A.dim → docFormula f64 (coord A i j) (coord B i j) rel abs = true) ∧
     (∀ c ∈ A.cellTypes, ∃ t ∈ B.cellTypes, Partner A B c t ∧ CellsMatch (A.cellsOf c) (B.cellsOf t)) ∧
     (∀ t ∈ B.cellTypes, ∃ c ∈ A.cellTypes, Partner A B c t ∧ CellsMatch (A.cellsOf c) (B.cellsOf t)) := by
   rw [meshEqualWith_eq_spec rel abs A B hA hB] at h
@@ -47,9 +47,9 @@ theorem C03_mesh_equal_sound (rel abs : Nat) (A B : Mesh) (hA : A.wfEq = true) (
 
 /-- **C03 (… and complete): the converse of `C03_mesh_equal_sound`.**  Whenever the conditions hold the
     answer is "equal" — `mesh_equal` is exactly index-wise equality up to tolerance and corner order. -/
-theorem C03_mesh_equal_complete (rel abs : Nat) (A B : Mesh) (hA : A.wfEq = true) (hB : B.wfEq = true)
+theorem C03_mesh_equal_complete (rel abs : Nat) (A B : Mesh) (hA : (wfEq A) = true) (hB : (wfEq B) = true)
     (hp : A.numPoints = B.numPoints ∧ A.dim = B.dim ∧
-      ∀ i j, i < A.numPoints → j < A.dim → docFormula f64 (A.coord i j) (B.coord i j) rel abs = true)
+      ∀ i j, i < A.numPoints → j < A.dim → docFormula f64 (coord A i j) (coord B i j) rel abs = true)
     (hAB : ∀ c ∈ A.cellTypes, ∃ t ∈ B.cellTypes, Partner A B c t ∧ CellsMatch (A.cellsOf c) (B.cellsOf t))
     (hBA : ∀ t ∈ B.cellTypes, ∃ c ∈ A.cellTypes, Partner A B c t) :
     meshEqualWith rel abs A B = .ok true := by
@@ -83,9 +83,9 @@ theorem C03_mesh_equal_complete (rel abs : Nat) (A B : Mesh) (hA : A.wfEq = true
 /-! ### single-site modifications (corollaries): any of them forces the verdict "unequal" -/
 
 /-- a coordinate that differs beyond the tolerance, at any point and any column -/
-theorem C03_single_site_coordinate (rel abs : Nat) (A B : Mesh) (hA : A.wfEq = true) (hB : B.wfEq = true)
+theorem C03_single_site_coordinate (rel abs : Nat) (A B : Mesh) (hA : (wfEq A) = true) (hB : (wfEq B) = true)
     (i j : Nat) (hi : i < A.numPoints) (hj : j < A.dim)
-    (hfar : docFormula f64 (A.coord i j) (B.coord i j) rel abs = false) :
+    (hfar : docFormula f64 (coord A i j) (coord B i j) rel abs = false) :
     meshEqualWith rel abs A B ≠ .ok true := by
   intro h
   have := (C03_mesh_equal_sound rel abs A B hA hB h).1.2.2 i j hi hj
@@ -93,7 +93,7 @@ theorem C03_single_site_coordinate (rel abs : Nat) (A B : Mesh) (hA : A.wfEq = t
   exact Bool.noConfusion this
 
 /-- an added or removed cell: the partner blocks differ in their number of cells -/
-theorem C03_single_site_cell_count (rel abs : Nat) (A B : Mesh) (hA : A.wfEq = true) (hB : B.wfEq = true)
+theorem C03_single_site_cell_count (rel abs : Nat) (A B : Mesh) (hA : (wfEq A) = true) (hB : (wfEq B) = true)
     (c t : String) (hc : c ∈ A.cellTypes) (ht : t ∈ B.cellTypes) (hpar : Partner A B c t)
     (hne : (A.cellsOf c).length ≠ (B.cellsOf t).length) :
     meshEqualWith rel abs A B ≠ .ok true := by
@@ -104,7 +104,7 @@ theorem C03_single_site_cell_count (rel abs : Nat) (A B : Mesh) (hA : A.wfEq = t
   exact hne hm.1
 
 /-- a rewired corner: some cell of A does not connect the same points as the cell of B at the same place -/
-theorem C03_single_site_rewired (rel abs : Nat) (A B : Mesh) (hA : A.wfEq = true) (hB : B.wfEq = true)
+theorem C03_single_site_rewired (rel abs : Nat) (A B : Mesh) (hA : (wfEq A) = true) (hB : (wfEq B) = true)
     (c t : String) (hc : c ∈ A.cellTypes) (ht : t ∈ B.cellTypes) (hpar : Partner A B c t)
     (k : Nat) (hk : k < (A.cellsOf c).length)
     (hdiff : ¬ ((A.cellsOf c).getD k []).Perm ((B.cellsOf t).getD k [])) :
@@ -116,7 +116,7 @@ theorem C03_single_site_rewired (rel abs : Nat) (A B : Mesh) (hA : A.wfEq = true
   exact hdiff (hm.2 k hk)
 
 /-- a cell type that exists in the source only (no identical and no compatible one-sided type in the target) -/
-theorem C03_single_site_type_block_source (rel abs : Nat) (A B : Mesh) (hA : A.wfEq = true) (hB : B.wfEq = true)
+theorem C03_single_site_type_block_source (rel abs : Nat) (A B : Mesh) (hA : (wfEq A) = true) (hB : (wfEq B) = true)
     (c : String) (hc : c ∈ A.cellTypes) (hnone : ∀ t ∈ B.cellTypes, ¬ Partner A B c t) :
     meshEqualWith rel abs A B ≠ .ok true := by
   intro h
@@ -124,7 +124,7 @@ theorem C03_single_site_type_block_source (rel abs : Nat) (A B : Mesh) (hA : A.w
   exact hnone t ht hpar
 
 /-- … and a cell type that exists in the target only (the direction the pinned code missed, F2) -/
-theorem C03_single_site_type_block_target (rel abs : Nat) (A B : Mesh) (hA : A.wfEq = true) (hB : B.wfEq = true)
+theorem C03_single_site_type_block_target (rel abs : Nat) (A B : Mesh) (hA : (wfEq A) = true) (hB : (wfEq B) = true)
     (t : String) (ht : t ∈ B.cellTypes) (hnone : ∀ c ∈ A.cellTypes, ¬ Partner A B c t) :
     meshEqualWith rel abs A B ≠ .ok true := by
   intro h
@@ -133,8 +133,8 @@ theorem C03_single_site_type_block_target (rel abs : Nat) (A B : Mesh) (hA : A.w
 
 /-- the modification spelled out as an operation: moving coordinate `j` of point `i` of any mesh to a value
     beyond the tolerance makes the mesh unequal to the original, in both roles -/
-theorem C03_single_site_moved_point (rel abs : Nat) (A : Mesh) (hA : A.wfEq = true) (i j : Nat) (x : Int)
-    (hi : i < A.numPoints) (hj : j < A.dim) (hfar : docFormula f64 (A.coord i j) x rel abs = false) :
+theorem C03_single_site_moved_point (rel abs : Nat) (A : Mesh) (hA : (wfEq A) = true) (i j : Nat) (x : Int)
+    (hi : i < A.numPoints) (hj : j < A.dim) (hfar : docFormula f64 (coord A i j) x rel abs = false) :
     meshEqualWith rel abs A (setCoord A i j x) ≠ .ok true ∧
     meshEqualWith rel abs (setCoord A i j x) A ≠ .ok true := by
   have hB := wfEq_setCoord A hA i j x
@@ -142,7 +142,7 @@ theorem C03_single_site_moved_point (rel abs : Nat) (A : Mesh) (hA : A.wfEq = tr
     have hlen := wfEq_points A hA (A.points.getD i []) (by
       rw [List.getD_eq_getElem?_getD, List.getElem?_eq_getElem hi]; exact List.getElem_mem hi)
     omega
-  have hx : (setCoord A i j x).coord i j = x := coord_setCoord A i j x hi hrow
+  have hx : coord (setCoord A i j x) i j = x := coord_setCoord A i j x hi hrow
   constructor
   · exact C03_single_site_coordinate rel abs A _ hA hB i j hi hj (by rw [hx]; exact hfar)
   · refine C03_single_site_coordinate rel abs _ A hB hA i j ?_ hj (by rw [hx, docFormula_symm]; exact hfar)
@@ -152,7 +152,7 @@ theorem C03_single_site_moved_point (rel abs : Nat) (A : Mesh) (hA : A.wfEq = tr
 
 /-- … and dropping a whole type block (all triangles of a hybrid mesh missing) makes the mesh unequal to the
     original, in both roles -/
-theorem C03_single_site_dropped_block (rel abs : Nat) (A : Mesh) (hA : A.wfEq = true) (ct : String)
+theorem C03_single_site_dropped_block (rel abs : Nat) (A : Mesh) (hA : (wfEq A) = true) (ct : String)
     (hct : ct ∈ A.cellTypes) :
     meshEqualWith rel abs A (dropBlock A ct) ≠ .ok true ∧
     meshEqualWith rel abs (dropBlock A ct) A ≠ .ok true := by
@@ -204,7 +204,7 @@ theorem C03_ladder_pass {α : Type} (ops : LadderOps α) (fl : LadderFlags) (Rel
     (hrefl : ∀ x, Rel x x) (htrans : ∀ x y z, Rel x y → Rel y z → Rel x z)
     (hext : ∀ d x, Rel (ops.extend d x) x)
     (hperm : ∀ x, Rel (ops.permute x) x) (hsort : ∀ x, Rel (ops.sortCells x) x)
-    (hwf : ∀ x, (mesh x).wfEq = true)
+    (hwf : ∀ x, (wfEq (mesh x)) = true)
     (hcmp : ∀ x y, (ops.compare x y).2 = true →
       (∃ rel abs, meshEqualWith rel abs (mesh x) (mesh y) = .ok true) ∧ fieldsPass (fields x) (fields y) = true)
     (S R : α) (hpass : (ladder ops fl S R).suite = true) :
@@ -212,7 +212,7 @@ theorem C03_ladder_pass {α : Type} (ops : LadderOps α) (fl : LadderFlags) (Rel
       ∃ rel abs,
         ((mesh S').numPoints = (mesh R').numPoints ∧ (mesh S').dim = (mesh R').dim ∧
           ∀ i j, i < (mesh S').numPoints → j < (mesh S').dim →
-            docFormula f64 ((mesh S').coord i j) ((mesh R').coord i j) rel abs = true) ∧
+            docFormula f64 (coord (mesh S') i j) (coord (mesh R') i j) rel abs = true) ∧
         (∀ c ∈ (mesh S').cellTypes, ∃ t ∈ (mesh R').cellTypes, Partner (mesh S') (mesh R') c t ∧
           CellsMatch ((mesh S').cellsOf c) ((mesh R').cellsOf t)) ∧
         (∀ t ∈ (mesh R').cellTypes, ∃ c ∈ (mesh S').cellTypes, Partner (mesh S') (mesh R') c t ∧
